@@ -555,6 +555,13 @@ func scenarios(prop string, thorough bool) []job {
 					}
 				}
 			}
+			// a wide fan at limit 2: two targets inside, two asleep at the gate
+			{
+				deps := [][]int{{1, 2, 3, 4}, {}, {}, {}, {}}
+				sc := mk(deps, nil, nil, 2)
+				sc.Name = "fan4"
+				jobs = append(jobs, job{sc: sc, bound: 2, prune: true, fan: 2})
+			}
 			// special path first (requested in a first call), then a fan (second call): a slot lost or
 			// gained on the special path shows in the fan that follows.
 			widths := []int{3}
@@ -623,6 +630,21 @@ func scenarios(prop string, thorough bool) []job {
 					}
 				}
 			}
+		}
+		// wide fans at a small limit: several targets asleep at the gate at once (lost wake-ups
+		// between back-to-back exits need at least two sleepers)
+		for _, w := range []int{4} {
+			deps := make([][]int, w+1)
+			for k := 1; k <= w; k++ {
+				deps[0] = append(deps[0], k)
+			}
+			b := 2 // two targets stopped inside the gate while two more fall asleep at it
+			if thorough {
+				b = 3
+			}
+			sc := mk(deps, nil, nil, 2)
+			sc.Name = fmt.Sprintf("fan%d", w)
+			add(sc, b, true)
 		}
 		// selected 4-node graphs: overlapping cycles, a cycle behind a tail, a cycle beside an
 		// acyclic branch, a walker outside the cycle
